@@ -1,27 +1,29 @@
 #!/usr/bin/env python3
-"""lib/seedretest.py [ids...] — re-run the quick check(s) against every seeded change on the current /verif and /repo
+"""lib/seedretest.py [ids...] — re-run the quick check(s) against every seeded change on the current /verif and /repo (or the copies named by SEED_ROOT / SEED_REPO: lib/seedretest_par.sh)
 (apply, check, restore) and record the outcome as "final" in seeded/<id>/<seed>/meta.json."""
 import json, os, subprocess, sys, re, glob
-ROOT = "/verif"
+ROOT = os.environ.get("SEED_ROOT", "/verif")
+REPO = os.environ.get("SEED_REPO", "/repo")
+os.environ["VERIF_REPO"] = REPO
 extra = {"C01-b2": ["C20"]}
 ids = sys.argv[1:]
 for d in sorted(glob.glob(os.path.join(ROOT, "seeded", "*", "*"))):
     name = os.path.basename(d); pid = name.split("-")[0]
     if ids and pid not in ids:
         continue
-    if subprocess.run("git -C /repo diff --quiet", shell=True).returncode:
+    if subprocess.run("git -C %s diff --quiet" % REPO, shell=True).returncode:
         print("repo dirty"); sys.exit(2)
-    r = subprocess.run(["git", "-C", "/repo", "apply", "--3way", os.path.join(d, "patch.diff")], stdout=subprocess.PIPE, stderr=subprocess.STDOUT, text=True)
-    subprocess.run("git -C /repo reset -q", shell=True)
+    r = subprocess.run(["git", "-C", REPO, "apply", "--3way", os.path.join(d, "patch.diff")], stdout=subprocess.PIPE, stderr=subprocess.STDOUT, text=True)
+    subprocess.run("git -C %s reset -q" % REPO, shell=True)
     if r.returncode:
-        print(name, "patch does not apply"); subprocess.run("git -C /repo checkout -- .", shell=True); continue
+        print(name, "patch does not apply"); subprocess.run("git -C %s checkout -- ." % REPO, shell=True); continue
     res = {}
     for cid in [pid] + extra.get(name, []):
         p = subprocess.run(["timeout", "-k", "5", "1500", "./check", cid, "--tier", "quick"], cwd=ROOT, stdout=subprocess.PIPE, stderr=subprocess.STDOUT, text=True)
         viol = [re.sub(r"replay=\S*/", "replay=", l) for l in p.stdout.split("\n") if l.startswith("VIOLATION")]
         what = [l[2:220] for l in p.stdout.split("\n") if l.startswith("# ")]
         res[cid] = {"exit": p.returncode, "violations": viol, "what": what[:3]}
-    subprocess.run("git -C /repo checkout -- .", shell=True)
+    subprocess.run("git -C %s checkout -- ." % REPO, shell=True)
     subprocess.run("git checkout -- evidence", shell=True, cwd=ROOT)
     caught = [c for c, v in res.items() if v["exit"] == 1 and any("no-failing-input-found" not in x for x in v["violations"])]
     weak = [c for c, v in res.items() if v["exit"] == 1 and v["violations"] and c not in caught]
